@@ -330,4 +330,399 @@ example : (anTrace { window := .tumbling 10, cap := 100, events := [] }
     (·.map fun o => (o.ret, o.events.map (·.id)))
     = some [(true, [0]), (true, [0, 1]), (true, [2]), (false, [2])] := by decide
 
+/-! ## WindowManager::process_event, sliding and session mode (fixed windows, first fit) -/
+
+theorem finv_new (t : WType) (ht : t ≠ .tumbling) (d cap maxW : Nat) : FInv t d (WM.new t d cap maxW) :=
+  ⟨rfl, ht, rfl, by simp [WM.new], by simp [WM.new], by simp [WM.new]⟩
+
+/-- **Every run of a sliding or session manager (`d ≥ 1`) over distinct events satisfies every clause of the
+observation-level step predicate `wmfStepOk`**: windows have the fixed span `[start, start + d)`, are listed by
+strictly increasing start, at most `maxW`; no window holds an event outside its span; windows that ended at or
+before the event's time are gone; the event goes to exactly one window — the first (smallest start) previous
+window whose span contains its timestamp, else a new window that starts at its timestamp — which afterwards
+holds its previous content plus `e` minus what the cap pushed out oldest-first; every other window is an old
+window, untouched; a window that has not ended is dropped only when the window limit is reached; aggregates of
+every window are the folds over its events. `t` is `.sliding` or `.session` (the code treats them alike). -/
+theorem wm_fixed_model_meets_spec (div : Int → Nat → Nat) (t : WType) (ht : t ≠ .tumbling) (d cap maxW : Nat)
+    (es : List Ev) (tr : List (List WObs)) (hd : 1 ≤ d) (hnd : es.Nodup)
+    (h : wmTrace div (WM.new t d cap maxW) es = some tr) :
+    wmfRunOk div d cap maxW [] es tr = true :=
+  wmf_trace_ok div hd es (WM.new t d cap maxW) [] tr (finv_new t ht d cap maxW)
+    (by intro w hw; simp [WM.new] at hw) hnd (by simp) h
+
+/-- … and the trace is always defined (these modes never panic), so the theorem above is not vacuous -/
+theorem wm_fixed_trace_defined (div : Int → Nat → Nat) (t : WType) (ht : t ≠ .tumbling) (d cap maxW : Nat)
+    (hd : 1 ≤ d) (es : List Ev) : ∃ tr, wmTrace div (WM.new t d cap maxW) es = some tr :=
+  wmf_trace_defined div hd es _ (finv_new t ht d cap maxW)
+
+/-- the first window whose span contains `ts` has the smallest start of all such windows -/
+theorem tgt_min {ws : List TW} (hs : (ws.map (·.start)).Pairwise (· < ·)) (ts : Nat) {w0 : TW} (hw0 : w0 ∈ ws)
+    (hc : w0.contains ts = true) : tgt ws ts ≤ w0.start := by
+  unfold tgt
+  cases hh : holder ws ts with
+  | none =>
+    unfold holder at hh
+    rw [List.find?_eq_none] at hh
+    exact absurd hc (by simpa using hh w0 hw0)
+  | some h =>
+    unfold holder at hh
+    obtain ⟨_, as, bs, hl, hno⟩ := List.find?_eq_some_iff_append.mp hh
+    rw [hl, List.mem_append] at hw0
+    rcases hw0 with hw0 | hw0
+    · exact absurd hc (by simpa using hno w0 hw0)
+    · rcases List.mem_cons.mp hw0 with rfl | hw0
+      · exact Nat.le_refl _
+      · rw [hl, List.map_append, List.pairwise_append] at hs
+        have := hs.2.1
+        rw [List.map_cons, List.pairwise_cons] at this
+        exact Nat.le_of_lt (this.1 _ (List.mem_map_of_mem hw0))
+
+/-- One `process_event e` of a sliding/session manager (`d ≥ 1`) in any reachable state, `e` not seen before:
+it does not fail and keeps the invariant; no window holds an event outside its span; no window has ended at or
+before `e`; `e` sits in at most one window; and (unless `maxW = 0` or `cap = 0`) it sits in one whose span
+contains its timestamp, which is — first fit — the earliest-starting previous window whose span contains the
+timestamp, or a window that starts exactly at the timestamp when there was none. -/
+theorem manager_fixed_places_once {t : WType} {d : Nat} {m : WM} (hd : 1 ≤ d) (hm : FInv t d m) (e : Ev)
+    (hfresh : ∀ w ∈ m.windows, e ∉ w.events) :
+    ∃ m', m.process e = some m' ∧ FInv t d m'
+      ∧ (∀ w ∈ m'.windows, ∀ x ∈ w.events, w.start ≤ x.ts ∧ x.ts < w.stop)
+      ∧ (∀ w ∈ m'.windows, e.ts < w.stop)
+      ∧ (∀ w1 ∈ m'.windows, ∀ w2 ∈ m'.windows, e ∈ w1.events → e ∈ w2.events → w1 = w2)
+      ∧ (1 ≤ m.maxW → 1 ≤ m.cap →
+          ∃ w ∈ m'.windows, e ∈ w.events ∧ w.start ≤ e.ts ∧ e.ts < w.stop
+            ∧ (∀ w0 ∈ m.windows, w0.start ≤ e.ts → e.ts < w0.stop → w.start ≤ w0.start)
+            ∧ ((∀ w0 ∈ m.windows, ¬ (w0.start ≤ e.ts ∧ e.ts < w0.stop)) → w.start = e.ts)) := by
+  obtain ⟨m', hp, hm', _, _, hexp, hcls, hex, _, hlo, hhi⟩ := fprocess_full hd hm e
+  have hdist' := distinct_of_sorted hm'.sorted
+  have hstart : ∀ w ∈ m'.windows, e ∈ w.events → w.start = tgt m.windows e.ts := by
+    intro w hw he
+    rcases hcls w hw with ⟨h1, _⟩ | ⟨_, h2⟩
+    · exact h1
+    · exact absurd he (hfresh w h2)
+  refine ⟨m', hp, hm', fun w hw => (hm'.wins w hw).inside, hexp, ?_, ?_⟩
+  · intro w1 hw1 w2 hw2 h1 h2
+    exact eq_of_start_eq hdist' hw1 hw2 ((hstart w1 hw1 h1).trans (hstart w2 hw2 h2).symm)
+  · intro hmax hcap
+    obtain ⟨w, hw, hs⟩ := hex hmax
+    have hst := (hm'.wins w hw).stop
+    refine ⟨w, hw, ?_, by omega, by omega, ?_, ?_⟩
+    · rcases hcls w hw with ⟨_, h2⟩ | ⟨h1, _⟩
+      · rw [h2]; exact mem_popOver_last _ _ hcap
+      · exact absurd hs h1
+    · intro w0 hw0 h1 h2
+      rw [hs]
+      exact tgt_min hm.sorted e.ts hw0 (by simp [TW.contains, h1, h2])
+    · intro hnone
+      rw [hs]
+      rcases tgt_cases m.windows e.ts with ⟨h, hmem, _, h2, _⟩ | ⟨_, h2, _⟩
+      · exfalso
+        apply hnone h hmem
+        simpa [TW.contains] using h2
+      · exact h2
+
+/-- the invariant holds initially and along every history: a sliding/session manager never fails for `d ≥ 1` and
+always holds fixed-span windows with strictly increasing starts, each holding only events of its own span -/
+theorem manager_fixed_invariant (t : WType) (ht : t ≠ .tumbling) (d cap maxW : Nat) (hd : 1 ≤ d) (es : List Ev) :
+    ∃ m', wmRun (WM.new t d cap maxW) es = some m' ∧ FInv t d m' := by
+  have h0 := finv_new t ht d cap maxW
+  generalize WM.new t d cap maxW = m at h0
+  induction es generalizing m with
+  | nil => exact ⟨m, rfl, h0⟩
+  | cons e es ih =>
+    obtain ⟨m1, h1, hm1, _⟩ := fprocess_full hd h0 e
+    obtain ⟨m2, h2, hm2⟩ := ih m1 hm1
+    exact ⟨m2, by simp [wmRun, h1, h2], hm2⟩
+
+/-- a concrete run (the kernel does not unfold `mergeSort`, so it is computed by rewriting): late event 5 opens
+`[5,15)` before the older `[10,20)`; 12 then goes to `[5,15)` — first fit -/
+theorem run_sliding_10_5_12 : wmRun (WM.new .sliding 10 100 100) [ev 0 10, ev 1 5, ev 2 12] = some
+    { wtype := .sliding, dur := 10, cap := 100, maxW := 100,
+      windows := [ { wtype := .sliding, dur := 10, start := 5, stop := 15, cap := 100, events := [ev 1 5, ev 2 12] },
+                   { wtype := .sliding, dur := 10, start := 10, stop := 20, cap := 100, events := [ev 0 10] } ] } := by
+  simp [wmRun, WM.process, WM.place, WM.tidy, WM.new, offer, windowStart, TW.new, TW.addEvent, TW.contains, popOver,
+    sortByStart, List.mergeSort, ev, List.MergeSort.Internal.splitInTwo]
+
+theorem run_session_0_3_6 : wmRun (WM.new .session 5 100 100) ([ev 0 0] ++ [ev 1 3, ev 2 6]) = some
+    { wtype := .session, dur := 5, cap := 100, maxW := 100,
+      windows := [ { wtype := .session, dur := 5, start := 6, stop := 11, cap := 100, events := [ev 2 6] } ] } := by
+  simp [wmRun, WM.process, WM.place, WM.tidy, WM.new, offer, windowStart, TW.new, TW.addEvent, TW.contains, popOver,
+    sortByStart, ev]
+
+/-- What the sliding manager does **not** guarantee — "a window holds every retained event of its span": -/
+def manager_sliding_span_complete_full : Prop :=
+  ∀ (d cap maxW : Nat) (es : List Ev) (m' : WM), 1 ≤ d → es.Nodup →
+    wmRun (WM.new .sliding d cap maxW) es = some m' →
+    ∀ w ∈ m'.windows, ∀ x ∈ es, w.start ≤ x.ts → x.ts < w.stop → (∃ w' ∈ m'.windows, x ∈ w'.events) → x ∈ w.events
+
+/-- … is false: windows overlap but the offering loop stops at the first window that accepts. Arrivals 10, 5, 12
+with d = 10: 12 lies in `[10,20)` and in `[5,15)` and is put into `[5,15)` only (replayed on the Rust code:
+corpus case `WM S 10 100 100 10:n1,5:n2,12:n3`). -/
+theorem manager_sliding_span_complete_counterexample : ¬ manager_sliding_span_complete_full := by
+  intro h
+  have := h 10 100 100 [ev 0 10, ev 1 5, ev 2 12]
+    { wtype := .sliding, dur := 10, cap := 100, maxW := 100,
+      windows := [ { wtype := .sliding, dur := 10, start := 5, stop := 15, cap := 100, events := [ev 1 5, ev 2 12] },
+                   { wtype := .sliding, dur := 10, start := 10, stop := 20, cap := 100, events := [ev 0 10] } ] }
+    (by decide) (by decide) run_sliding_10_5_12
+    { wtype := .sliding, dur := 10, start := 10, stop := 20, cap := 100, events := [ev 0 10] } (by decide)
+    (ev 2 12) (by decide) (by decide) (by decide)
+    ⟨_, List.mem_cons_self, by decide⟩
+  exact absurd this (by decide)
+
+/-- What the *session* manager does not guarantee — "an event that follows the previous arrival by less than the
+duration/timeout stays in the same window": -/
+def manager_session_gap_full : Prop :=
+  ∀ (d cap maxW : Nat) (pre : List Ev) (x y : Ev) (m' : WM), 1 ≤ d → (pre ++ [x, y]).Nodup →
+    wmRun (WM.new .session d cap maxW) (pre ++ [x, y]) = some m' →
+    x.ts ≤ y.ts → y.ts - x.ts < d → 1 ≤ cap → 1 ≤ maxW →
+    ∀ w ∈ m'.windows, y ∈ w.events → x ∈ w.events
+
+/-- … is false: `WindowManager` never reads the session timeout; a session window is the fixed span
+`[first, first + d)`. Arrivals 0, 3, 6 with d = 5: 6 follows 3 by 3 ms but opens a new window `[6,11)`, and the
+window holding 0 and 3 is dropped as expired (corpus case `WM N 5 100 100 0:n1,3:n2,6:n3`). -/
+theorem manager_session_gap_counterexample : ¬ manager_session_gap_full := by
+  intro h
+  have := h 5 100 100 [ev 0 0] (ev 1 3) (ev 2 6)
+    { wtype := .session, dur := 5, cap := 100, maxW := 100,
+      windows := [ { wtype := .session, dur := 5, start := 6, stop := 11, cap := 100, events := [ev 2 6] } ] }
+    (by decide) (by decide) run_session_0_3_6 (by decide) (by decide) (by decide) (by decide)
+    _ List.mem_cons_self (by decide)
+  exact absurd this (by decide)
+
+/-! ## WindowedStream::new, sliding / session configuration -/
+
+/-- The sliding/session constructor (any duration, cap, event list — after fix-C12c it always returns): windows
+are listed by strictly increasing start; each is a point of the grid `min, min + step, … ≤ max`
+(`step = max (d/2) 1`) with the span `[s, s + d)`; it holds **exactly** the events whose timestamp lies in its
+span, in arrival order, minus what the cap pushed out oldest-first, and is not empty; every grid point whose span
+holds an event has its window (cap ≥ 1); hence (d ≥ 1, cap ≥ 1) every event lies in the span of some window. -/
+theorem windowed_stream_sliding_grid (t : WType) (d cap : Nat) (es : List Ev) :
+    ((wsSliding t d cap es).map (·.start)).Pairwise (· < ·)
+    ∧ (∀ w ∈ wsSliding t d cap es,
+        minTs es ≤ w.start ∧ (w.start - minTs es) % wsStep d = 0 ∧ w.start ≤ maxTs es
+        ∧ w.stop = w.start + d
+        ∧ w.events = popOver cap (es.filter (inSpan w.start d))
+        ∧ w.events ≠ [])
+    ∧ (∀ s, minTs es ≤ s → s ≤ maxTs es → (s - minTs es) % wsStep d = 0 → 1 ≤ cap →
+        (∃ x ∈ es, inSpan s d x = true) → ∃ w ∈ wsSliding t d cap es, w.start = s)
+    ∧ (1 ≤ d → 1 ≤ cap → ∀ x ∈ es, ∃ w ∈ wsSliding t d cap es, w.start ≤ x.ts ∧ x.ts < w.stop) := by
+  obtain ⟨h1, h2, h3⟩ := ws_sliding_spec t d cap es
+  refine ⟨h1, h2, h3, ?_⟩
+  intro hd hc x hx
+  obtain ⟨s, b1, b2, b3, b4⟩ := grid_point_of_event hd hx
+  obtain ⟨w, hw, hws⟩ := h3 s b1 b2 b3 hc ⟨x, hx, b4⟩
+  refine ⟨w, hw, ?_⟩
+  rw [(h2 w hw).2.2.2.1, hws]
+  simpa [inSpan] using b4
+
+/-- "every event is accepted by every window whose span contains its timestamp, and no window holds an event
+outside its span" — the first half as long as the cap does not bind -/
+theorem windowed_stream_sliding_exact (t : WType) (d cap : Nat) (es : List Ev) :
+    (∀ w ∈ wsSliding t d cap es, ∀ x ∈ w.events, x ∈ es ∧ w.start ≤ x.ts ∧ x.ts < w.stop)
+    ∧ (es.length ≤ cap → ∀ w ∈ wsSliding t d cap es, ∀ x ∈ es, w.start ≤ x.ts → x.ts < w.stop → x ∈ w.events) := by
+  obtain ⟨_, h2, _⟩ := ws_sliding_spec t d cap es
+  constructor
+  · intro w hw x hx
+    obtain ⟨_, _, _, a4, a5, _⟩ := h2 w hw
+    rw [a5] at hx
+    have := List.mem_filter.mp (mem_of_mem_popOver hx)
+    refine ⟨this.1, ?_⟩
+    rw [a4]
+    simpa [inSpan] using this.2
+  · intro hlen w hw x hx h1 h2'
+    obtain ⟨_, _, _, a4, a5, _⟩ := h2 w hw
+    rw [a5, popOver_of_le (Nat.le_trans (List.length_filter_le _ _) hlen), List.mem_filter]
+    rw [a4] at h2'
+    exact ⟨hx, by simp [inSpan, h1, h2']⟩
+
+theorem wss_model_meets_spec (div : Int → Nat → Nat) (t : WType) (d cap : Nat) (es : List Ev) :
+    wssOk div d cap es ((wsSliding t d cap es).map (TW.wobs div)) = true :=
+  wss_ok div t d cap es
+
+/-- termination, quantitatively: the loop of the fixed code runs at most `max_time − current_start + 1` times -/
+theorem ws_grid_length (step : Nat) (hs : 0 < step) (cur mx : Nat) :
+    (wsGrid step hs cur mx).length ≤ mx + 1 - cur := by
+  fun_induction wsGrid step hs cur mx with
+  | case1 cur h ih => simp only [List.length_cons]; omega
+  | case2 cur h => simp
+
+/-- **F-C12c** (before fix-C12c): with a duration of at most 1 ms — 1 ms is a legal `Duration` — the step
+`window_ms / 2` is 0, the cursor never moves, and the loop guard `current_start <= max_time` still holds after
+any number `n` of iterations: `WindowedStream::new` does not return for any non-empty input. -/
+theorem ws_sliding_old_diverges (d : Nat) (es : List Ev) (n : Nat) (hd : d ≤ 1) :
+    wsCursorOld d (minTs es) n ≤ maxTs es := by
+  rw [wsCursorOld_stuck d _ n hd]; exact minTs_le_maxTs es
+
+/-- non-vacuity: d = 1 (step 1 after the fix), d = 4 with overlap and a late event; d = 5 rounds the step down to 2 -/
+example : (wsSliding .sliding 1 100 [ev 0 3, ev 1 5]).map (fun w => (w.start, w.stop, w.events.map (·.id)))
+    = [(3, 4, [0]), (5, 6, [1])] := by decide +kernel
+example : (wsSliding .session 4 100 [ev 0 7, ev 1 2, ev 2 5]).map (fun w => (w.start, w.stop, w.events.map (·.id)))
+    = [(2, 6, [1, 2]), (4, 8, [0, 2]), (6, 10, [0])] := by decide +kernel
+example : wsGrid (wsStep 5) (wsStep_pos 5) 1 9 = [1, 3, 5, 7, 9] := by decide +kernel
+
+/-! ## StreamAlphaNode with a session window, explicit clock -/
+
+/-- Every run of `process_event` of a session node under any clock sequence satisfies the session spec: every
+event of the node's stream/type is accepted; closer than the timeout to the last arrival it joins the buffer
+(cap: oldest out), a larger gap starts a new session holding it alone; and when the accepted event is itself older
+than the timeout at the clock the buffer is emptied. -/
+theorem alpha_session_model_meets_spec (timeout cap : Nat) (ops : List ANOp) :
+    ansRunOk timeout cap none [] ops (ansTrace { timeout := timeout, cap := cap, events := [], last := none } ops) = true :=
+  ans_trace_ok ops { timeout := timeout, cap := cap, events := [], last := none }
+
+/-- In every reachable state the buffer is one session: consecutive retained events (arrival order) are at most
+`timeout` apart (`saturating_sub`, as coded: a late event is 0 apart), the node's "last activity" is the timestamp
+of the newest-arrived retained event, a closed session has an empty buffer, and the cap is respected. -/
+theorem alpha_session_invariant (timeout cap : Nat) (ops : List ANOp) :
+    let a := ansRun { timeout := timeout, cap := cap, events := [], last := none } ops
+    (a.last = none → a.events = [])
+    ∧ (∀ l, a.last = some l → ∀ x ∈ a.events.getLast?, x.ts = l)
+    ∧ gapsOk timeout a.events = true
+    ∧ a.events.length ≤ cap := by
+  have h0 : SInv ({ timeout := timeout, cap := cap, events := [], last := none } : AlphaS) :=
+    ⟨by simp, by simp, by simp [gapsOk], by simp⟩
+  have hc : ∀ (ops : List ANOp) (a : AlphaS), (ansRun a ops).cap = a.cap ∧ (ansRun a ops).timeout = a.timeout := by
+    intro ops
+    induction ops with
+    | nil => intro a; exact ⟨rfl, rfl⟩
+    | cons op ops ih =>
+      intro a
+      obtain ⟨_, _, h3, h4⟩ := ans_step_ok a op
+      have := ih (a.process op.now op.pass op.e).1
+      simp only [ansRun]
+      rw [this.1, this.2, h3, h4]; exact ⟨rfl, rfl⟩
+  have h := sinv_run ops _ h0
+  have hct := hc ops { timeout := timeout, cap := cap, events := [], last := none }
+  refine ⟨h.closed, h.newest, ?_, ?_⟩
+  · have := h.chain; rw [hct.2] at this; exact this
+  · have := h.len; rw [hct.1] at this; exact this
+
+/-- one accepted event, any prior state: a gap above the timeout leaves at most the new event; an event not older
+than the timeout at the clock is retained (cap ≥ 1); an older one empties the buffer -/
+theorem alpha_session_step (a : AlphaS) (now : Nat) (e : Ev) :
+    (a.process now true e).2 = true
+    ∧ (∀ l, a.last = some l → e.ts - l > a.timeout → ∀ x ∈ (a.process now true e).1.events, x = e)
+    ∧ (now - e.ts ≤ a.timeout → 1 ≤ a.cap → e ∈ (a.process now true e).1.events)
+    ∧ (now - e.ts > a.timeout → (a.process now true e).1.events = []) := by
+  have hg : (a.gapReset e.ts).timeout = a.timeout ∧ (a.gapReset e.ts).cap = a.cap := by
+    unfold AlphaS.gapReset
+    cases a.last with
+    | none => exact ⟨rfl, rfl⟩
+    | some l => simp only; split <;> exact ⟨rfl, rfl⟩
+  refine ⟨by simp [AlphaS.process], ?_, ?_, ?_⟩
+  · intro l hl hgap x hx
+    have hr : (a.gapReset e.ts).events = [] := by simp [AlphaS.gapReset, hl, hgap]
+    simp only [AlphaS.process, if_true, AlphaS.expire, AlphaS.push, hr, List.nil_append] at hx
+    split at hx
+    · simp at hx
+    · have := mem_of_mem_popOver hx
+      simpa using this
+  · intro hnow hcap
+    have hno : ¬ now - e.ts > a.timeout := by omega
+    simp only [AlphaS.process, if_true, AlphaS.expire, AlphaS.push, hg.1, hg.2, hno, if_false]
+    exact mem_popOver_last _ _ hcap
+  · intro hnow
+    simp only [AlphaS.process, if_true, AlphaS.expire, AlphaS.push, hg.1, hnow, if_true]
+
+/-- What the session node does **not** guarantee — "accepting an event never loses a live session": -/
+def alpha_session_keeps_live_session_full : Prop :=
+  ∀ (a : AlphaS) (now l : Nat) (e : Ev), SInv a → a.last = some l → now - l ≤ a.timeout → e.ts - l ≤ a.timeout →
+    a.events.length < a.cap → ∀ x ∈ a.events, x ∈ (a.process now true e).1.events
+
+def sessA : AlphaS := { timeout := 5, cap := 100, events := [ev 0 100, ev 1 101], last := some 101 }
+
+/-- … is false: the node measures expiry from the timestamp of the event that *arrived* last. A late event
+(ts 90 at clock 102, timeout 5) joins the live session 100, 101, becomes its "last activity", and the whole
+session — the late event included — is then evicted as 12 ms idle
+(replayed on the Rust code: corpus case `AN E 5 100 100@100:n1,101@101:n2,102@90:n3`). -/
+theorem alpha_session_keeps_live_session_counterexample : ¬ alpha_session_keeps_live_session_full := by
+  intro h
+  have := h sessA 102 101 (ev 2 90) ⟨by decide, by decide, by decide, by decide⟩ rfl (by decide) (by decide) (by decide)
+    (ev 0 100) (by decide)
+  exact absurd this (by decide)
+
+/-- non-vacuity: two sessions, a gap of exactly the timeout continues, timeout + 1 starts anew -/
+example : (ansTrace { timeout := 5, cap := 100, events := [], last := none }
+    [⟨100, true, ev 0 100⟩, ⟨105, true, ev 1 105⟩, ⟨111, true, ev 2 111⟩, ⟨112, true, ev 3 90⟩]).map
+      (fun o => (o.ret, o.events.map (·.id)))
+    = [(true, [0]), (true, [0, 1]), (true, [2]), (true, [])] := by decide
+
+theorem wm_zero_process (t : WType) (ht : t ≠ .tumbling) (cap maxW : Nat) (e : Ev) :
+    (WM.new t 0 cap maxW).process e = some (WM.new t 0 cap maxW) := by
+  cases t with
+  | tumbling => exact absurd rfl ht
+  | sliding =>
+    simp [WM.process, WM.place, WM.new, offer, windowStart, TW.new, TW.addEvent, TW.contains, WM.tidy, popOver, sortByStart]
+  | session =>
+    simp [WM.process, WM.place, WM.new, offer, windowStart, TW.new, TW.addEvent, TW.contains, WM.tidy, popOver, sortByStart]
+
+/-- A sliding/session manager with a duration below 1 ms (`d = 0`) never holds a window — the window `[t, t)` opened
+for an event refuses it and is cleaned up at once — and never panics; its runs satisfy `wmfRunOk` as well. -/
+theorem wm_fixed_zero_duration (div : Int → Nat → Nat) (t : WType) (ht : t ≠ .tumbling) (cap maxW : Nat) (es : List Ev) :
+    wmTrace div (WM.new t 0 cap maxW) es = some (es.map fun _ => [])
+    ∧ wmfRunOk div 0 cap maxW [] es (es.map fun _ => []) = true := by
+  induction es with
+  | nil => exact ⟨rfl, rfl⟩
+  | cons e es ih =>
+    refine ⟨?_, ?_⟩
+    · simp only [wmTrace, wm_zero_process t ht, ih.1, Option.map_some, List.map_cons]
+      simp [WM.new]
+    · simp only [List.map_cons, wmfRunOk, Bool.and_eq_true]
+      refine ⟨?_, ih.2⟩
+      simp [wmfStepOk, strictInc, occurrences]
+
+/-! ## the other aggregates: First, Last, CountDistinct, CountBy, Percentile (0/25/50/75/100), StdDev-definedness -/
+
+/-- the model of `Aggregator::aggregate` for these types meets the observation-level spec `agg2Ok` on every event list -/
+theorem aggregates2_meet_spec (es : List AEv) : agg2Ok es (aggregate2 es) = true := aggregate2_ok es
+
+/-- … spelled out: First/Last are the ids of the earliest/latest arrival; CountDistinct is the cardinality of the set
+of values present (Number/Integer/String of one integer are three values); CountBy has exactly one entry per key that
+occurs, carrying the number of its occurrences; a percentile `p ≤ 100` is `none` iff there is no numeric value and
+otherwise the order statistic of rank `pctIndex p n`: a member of the values with at most that many values strictly
+below it and more than that many at or below it. -/
+theorem aggregates2_are_exact (es : List AEv) :
+    aggFirst es = es.head?.map (·.id) ∧ aggLast es = es.getLast?.map (·.id)
+    ∧ (∃ l : List FVal, l.Nodup ∧ (∀ v, v ∈ l ↔ (v ≠ .missing ∧ ∃ e ∈ es, e.v = v)) ∧ aggCountDistinct es = l.length)
+    ∧ ((aggCountBy es).map (·.1)).Nodup
+    ∧ (∀ p ∈ aggCountBy es, p.2 = (es.filterMap (·.v.key)).count p.1 ∧ 1 ≤ p.2)
+    ∧ (∀ k ∈ es.filterMap (·.v.key), k ∈ (aggCountBy es).map (·.1))
+    ∧ (∀ p, p ≤ 100 →
+        (aggPercentile p es = none ↔ avals es = [])
+        ∧ ∀ r, aggPercentile p es = some r →
+            r ∈ avals es
+            ∧ (avals es).countP (fun x => decide (x < r)) ≤ pctIndex p (avals es).length
+            ∧ pctIndex p (avals es).length < (avals es).countP (fun x => decide (x ≤ r))) := by
+  have hc := cinv_fold (es.filterMap (·.v.key)) [] [] ⟨by simp [ckeys], by simp, by simp⟩
+  simp only [List.nil_append] at hc
+  refine ⟨rfl, rfl, ?_, hc.nodup, hc.count, hc.cover, ?_⟩
+  · refine ⟨dedup ((es.map (·.v)).filter (· ≠ .missing)), nodup_dedup _, ?_, rfl⟩
+    intro v
+    rw [mem_dedup, List.mem_filter, List.mem_map]
+    constructor
+    · rintro ⟨⟨e, he, rfl⟩, h2⟩
+      exact ⟨by simpa using h2, e, he, rfl⟩
+    · rintro ⟨h1, e, he, rfl⟩
+      exact ⟨⟨e, he, rfl⟩, by simpa using h1⟩
+  · intro p hp
+    have hok := percentile_ok p hp es
+    constructor
+    · constructor
+      · intro hn
+        rw [hn] at hok
+        simpa [pctOk] using hok
+      · intro he
+        simp [aggPercentile, he]
+    · intro r hr
+      rw [hr] at hok
+      simp only [pctOk, rankOk, Bool.and_eq_true, List.contains_eq_mem, decide_eq_true_eq] at hok
+      exact ⟨hok.2.1.1, hok.2.1.2, hok.2.2⟩
+
+example : aggregate2 [⟨0, .num 3⟩, ⟨1, .int 3⟩, ⟨2, .str 3⟩, ⟨3, .missing⟩, ⟨4, .int (-2)⟩, ⟨5, .num 3⟩]
+    = { first := some 0, last := some 5, distinct := 4, countBy := [(-2, 1), (3, 4)],
+        pcts := [some (-2), some 3, some 3, some 3, some 3], stdDefined := true } := by
+  simp [aggregate2, aggFirst, aggLast, aggCountDistinct, dedup, aggCountBy, bumpCount, FVal.key, sortByKey,
+    aggPercentile, avals, FVal.numeric, sortInts, pctIndex, aggStdDevDefined, List.mergeSort,
+    List.MergeSort.Internal.splitInTwo]
+
 end C12
